@@ -284,6 +284,10 @@ struct Ctx {
     allow_scripts: Vec<ScriptBuf>,
     /// scripts that were on the allowlist and have been removed again: unknown destinations from then on
     removed_scripts: Vec<ScriptBuf>,
+    /// the world's policy filter demotes "policy-onchain-no-channel-push" to a warning: funding an outbound
+    /// channel with a push is then allowed by configuration, but the pushed value is money given away and
+    /// counts towards the fee bound
+    push_waived: bool,
     xpubs: Vec<Xpub>,
     allow_strings: Vec<String>,
     next_chan: usize,
@@ -367,6 +371,11 @@ fn new_ctx(rng: &mut Rng) -> Ctx {
     };
     cfg.policy.fee_velocity_control = spec;
     let min_feerate = cfg.policy.min_feerate_per_kw;
+    let push_waived = rng.chance(1, 5);
+    if push_waived {
+        use lightning_signer::policy::filter::{FilterRule, PolicyFilter};
+        cfg.policy.filter = PolicyFilter { rules: vec![FilterRule::new_warn("policy-onchain-no-channel-push")] };
+    }
     let world = World::new(cfg);
     let secp = Secp256k1::new();
     let node = world.node.clone();
@@ -419,6 +428,7 @@ fn new_ctx(rng: &mut Rng) -> Ctx {
     });
     Ctx {
         removed_scripts: vec![],
+        push_waived,
         world,
         node_ctx,
         secp,
@@ -1175,6 +1185,40 @@ fn gen_case(ctx: &mut Ctx, rng: &mut Rng, r: &mut Report, wire: bool) -> Case {
             }
         }
     }
+    // channels that stay without a counter-signed initial commitment: half of them see a hostile attempt first -
+    // the initial commitment is presented with a signature that does not verify (refused), and the node then asks
+    // to activate it anyway (refused); the channel must still count as "initial commitment not validated"
+    for i in 0..chans.len() {
+        if chans[i].setup_ok && !chans[i].validate && rng.bool() {
+            let chan = &chans[i].ctx;
+            let anchors = chan.setup.is_anchors();
+            let fee = commit_fee(ctx, anchors);
+            let push_sat = chan.setup.push_value_msat / 1000;
+            let v = chan.setup.channel_value_sat;
+            if v < fee + push_sat + 1000 {
+                continue;
+            }
+            let (to_b, to_c) = if chan.setup.is_outbound { (v - fee - push_sat, push_sat) } else { (push_sat, v - fee - push_sat) };
+            let node_ctx = &ctx.node_ctx;
+            let bad_key = rand_key(rng);
+            let res = report::catch(|| {
+                let mut cctx = channel_commitment(node_ctx, chan, 0, 0, to_b, to_c, vec![], vec![]);
+                let (_csig, hsigs) = counterparty_sign_holder_commitment(node_ctx, chan, &mut cctx);
+                let bad = ctx.secp.sign_ecdsa(&lightning_signer::bitcoin::secp256k1::Message::from_digest([0x42; 32]), &bad_key);
+                let first = validate_holder_commitment(node_ctx, chan, &cctx, &bad, &hsigs).is_ok();
+                let second = node_ctx.node.with_channel(&chan.channel_id, |c| c.activate_initial_commitment()).is_ok();
+                (first, second)
+            });
+            match res {
+                Ok((false, false)) => r.count("hostile_initial_commitment.bad_signature_refused_and_activation_refused"),
+                Ok((a, b)) => r.count(&format!("hostile_initial_commitment.validate_accepted={}.activation_accepted={}", a, b)),
+                Err(p) => {
+                    r.count("hostile_initial_commitment.panic");
+                    r.set_add("panics", &p.chars().take(120).collect::<String>());
+                }
+            }
+        }
+    }
     // reclassify outputs whose channel could not be brought into the intended state
     for o in outs.iter_mut() {
         if let Some(ci) = o.chan {
@@ -1259,6 +1303,8 @@ fn judge_accept(
                 detail(json!({"entry": entry, "output_index": i, "class": o.cls.name(), "kind": o.sub,
                               "why": "output is unknown by construction and was not explicitly approved"})),
             );
+        } else if o.cls == Cls::FundPush && ctx.push_waived {
+            r.count("push_waived.funding_with_push_accepted");
         } else if o.cls.is_bad_funding() {
             class_violation = true;
             r.violation(
@@ -1293,7 +1339,17 @@ fn judge_accept(
     // value is sum(inputs) - sum(outputs)
     let sum_in: u128 = case.prev_outs.iter().map(|o| o.value.to_sat() as u128).sum();
     let sum_out: u128 = case.outs.iter().map(|o| o.txout.value.to_sat() as u128).sum();
-    let fee: i128 = sum_in as i128 - sum_out as i128;
+    let mut fee: i128 = sum_in as i128 - sum_out as i128;
+    if ctx.push_waived {
+        // value pushed to the counterparty in accepted funding outputs is not value the node keeps
+        for (i, o) in case.outs.iter().enumerate() {
+            if o.cls == Cls::FundPush && !appr.contains(&i) {
+                if let Some(ci) = o.chan {
+                    fee += (case.chans[ci].ctx.setup.push_value_msat / 1000) as i128;
+                }
+            }
+        }
+    }
     let mut fee_flagged = false;
     if !class_violation {
         r.count(if via_approver { "observed.approved_unknown_tx_accepted" } else { "ante.fee_bound_checked" });
